@@ -288,12 +288,30 @@ def r04_4_list_discipline(repo: Repo, rep: Report):
     rep.check("R04.4", ok, ms, rf, "PathContext.refine: query=refine(self.query), is_refined=True", "refined context must carry the refined query and the flag")
 
 
+def r04_6_results_during_shutdown(repo: Repo, rep: Report):
+    rep.rule("R04.6", "a solver result that arrives while the executor is shutting down (early exit) is discarded, not parsed")
+    m, fn = repo.fn("__main__.CounterexampleHandler._get_solver_output")
+    reads = [c for c in body_walk(fn) if isinstance(c, ast.Call) and src(c.func) == "future.result"]
+    if not reads:
+        raise AnalysisError("_get_solver_output: future.result() not found")
+    for c in reads:
+        gs = {g.replace(" ", "") for g in guard_set(m, c)}
+        ok = any(g in gs for g in ("not(self.ctx.solving_ctx.executor.is_shutdown())", "notself.ctx.solving_ctx.executor.is_shutdown()"))
+        rep.check("R04.6", ok, m, c, f"future.result() under {sorted(gs)}", "the output of a solver killed in the middle of printing (`sat` plus a truncated model, no abstraction symbol seen yet) is parsed and reported as a valid counterexample with missing or wrong values")
+
+
 def r04_5_shared(repo: Repo, rep: Report):
     """a model is only as good as the query it satisfies: the dumped (and the refined) query must carry the path's
     constraints, including the named assertions under --cache-solver (shared with C11)"""
     from hsa.rules.c11 import r11_3_dump_writer_reader
 
     r11_3_dump_writer_reader(repo, rep)
+    # ... and the query must be the path's whole condition set: a model of a query that leaves constraints out (of an
+    # earlier transaction, of setUp) does not replay
+    from hsa.rules.c11 import r11_1_serialisation
+
+    rep.rule("R11.1", "serialisation is complete, ids are term ids (shared with C11)")
+    r11_1_serialisation(repo, rep)
 
 
-RULES = [r04_5_shared, r04_1_prefix_agreement, r04_2_refine_exact, r04_3_model_syntaxes, r04_4_list_discipline]
+RULES = [r04_5_shared, r04_1_prefix_agreement, r04_2_refine_exact, r04_3_model_syntaxes, r04_4_list_discipline, r04_6_results_during_shutdown]
